@@ -18,16 +18,18 @@ META = {
     "quick_s": 60, "thorough_s": 420,
 }
 
-# panic locations that belong to answer construction / application / canonicalization
+# panic locations that belong to answer construction / application / canonicalization (aggregate.rs, resolvent.rs,
+# canonicalize / ucanonicalize / instantiate / invert, Substitution::apply, and the folders' own assertions
+# `unexpected free variable` / `unexpected inference ...` / `unexpected placeholder` in chalk-ir/src/fold.rs)
 ANSWER_LAYER = re.compile(r"(chalk-solve/src/infer/|chalk-solve/src/infer\.rs|chalk-engine/src/slg/resolvent\.rs|chalk-engine/src/slg/aggregate\.rs|"
-                          r"chalk-ir/src/lib\.rs|chalk-ir/src/fold/subst\.rs)")
+                          r"chalk-ir/src/lib\.rs|chalk-ir/src/fold\.rs|chalk-ir/src/fold/|chalk-ir/src/visit\.rs|chalk-ir/src/visit/)")
 
 
 # ---------------------------------------------------------------------------------------------
 # an own small generator: types, lifetimes and consts as unknowns, nested forall / exists
 # ---------------------------------------------------------------------------------------------
 
-BASE_ITEMS = ["struct S0 {}", "struct S1<T> {}", "struct S2<T, U> {}", "struct R<'a, T> {}", "struct C<const N> {}", "struct I32 {}",
+BASE_ITEMS = ["struct S0 {}", "struct S1<T> {}", "struct S2<T, U> {}", "struct S3<T, U, V> {}", "struct R<'a, T> {}", "struct C<const N> {}", "struct I32 {}",
               "trait Tr0 {}", "trait Tr1<T> {}", "trait TrL<'a> {}", "trait TrC<const N> {}", "trait Id {}"]
 # (impl text, atom patterns that the impl can satisfy; {T0} {T1} types, {L0} {L1} lifetimes, {C0} {C1} consts)
 IMPLS = [
@@ -53,6 +55,18 @@ IMPLS = [
     ("impl<'a, T> Tr1<T> for R<'a, T> {}", ["R<{L0}, {T0}>: Tr1<{T1}>", "{T0}: Tr1<{T1}>"]),
 ]
 
+# groups of impls whose answers agree on a generic sub-term (same constructor, same arguments mentioning an impl
+# parameter that stays free) and differ elsewhere: 2- and 3-parameter structs, nested generic arguments
+SHARED = [
+    ("impl<T> Tr0 for S2<S1<T>, S0> {}\nimpl<T> Tr0 for S2<S1<T>, I32> {}", ["{T0}: Tr0", "S2<{T0}, {T1}>: Tr0"]),
+    ("impl<T> Tr0 for S2<S0, S1<T>> {}\nimpl<T> Tr0 for S2<I32, S1<T>> {}", ["{T0}: Tr0", "S2<{T0}, {T1}>: Tr0"]),
+    ("impl<T, U> Tr0 for S3<S2<T, U>, S0, S1<T>> {}\nimpl<T, U> Tr0 for S3<S2<T, U>, I32, S1<T>> {}", ["{T0}: Tr0", "S3<{T0}, {T1}, {T0}>: Tr0", "S3<{T0}, {T1}, S1<{T1}>>: Tr0"]),
+    ("impl<T> Tr1<S1<S1<T>>> for S0 {}\nimpl<T> Tr1<S1<S1<T>>> for I32 {}", ["{T0}: Tr1<{T1}>", "{T0}: Tr1<S1<{T1}>>"]),
+    ("impl<'a, T> Tr0 for S2<R<'a, T>, S0> {}\nimpl<'a, T> Tr0 for S2<R<'a, T>, I32> {}\nimpl<'a, T> Tr0 for S2<R<'a, T>, S1<T>> {}", ["{T0}: Tr0", "S2<{T0}, {T1}>: Tr0", "S2<R<{L0}, {T0}>, {T1}>: Tr0"]),
+    ("impl<const N, T> TrC<N> for S3<C<N>, S1<T>, S0> {}\nimpl<const N, T> TrC<N> for S3<C<N>, S1<T>, I32> {}", ["{T0}: TrC<{C0}>", "S3<{T0}, {T1}, {T0}>: TrC<{C0}>", "S3<C<{C0}>, {T0}, {T1}>: TrC<{C1}>"]),
+    ("impl<T, U> Tr1<S2<T, U>> for S2<S1<T>, S0> {}\nimpl<T, U> Tr1<S2<T, U>> for S2<S1<T>, I32> {}", ["{T0}: Tr1<{T1}>", "S2<{T0}, {T1}>: Tr1<{T1}>"]),
+]
+
 
 class OwnGen:
     def __init__(self, r):
@@ -62,6 +76,9 @@ class OwnGen:
 
     def program(self):
         chosen = self.r.sample(IMPLS, self.r.randint(3, 9))
+        if self.r.random() < 0.6:
+            chosen = chosen[:5] + self.r.sample(SHARED, self.r.choice([1, 1, 2]))
+            self.r.shuffle(chosen)
         self.patterns = [p for _, ps in chosen for p in ps]
         return "\n".join(BASE_ITEMS + [t for t, _ in chosen])
 
@@ -81,7 +98,9 @@ class OwnGen:
             return "S1<%s>" % self.ty(scope, d - 1)
         if x < 0.5:
             return "S2<%s, %s>" % (self.ty(scope, d - 1), self.ty(scope, d - 1))
-        if x < 0.75:
+        if x < 0.58:
+            return "S3<%s, %s, %s>" % (self.ty(scope, d - 1), self.ty(scope, d - 1), self.ty(scope, d - 1))
+        if x < 0.78:
             return "R<%s, %s>" % (self.lt(scope), self.ty(scope, d - 1))
         return "C<%s>" % self.cst(scope)
 
@@ -217,6 +236,7 @@ def run(ctx):
     outs = core.run_harness("canon", [c[1] for c in cases], args=["answers"], timeout=900)
 
     fam_of = {}
+    pfam = {}
     vfam = {}
     answers = []     # (case, query, source, binders, subst, applied)
     stats = {"goals": 0, "goal_errors": 0, "program_errors": 0, "goal_died": 0, "no_solution": 0, "ambig_unknown": 0, "floundered": 0,
@@ -263,9 +283,10 @@ def run(ctx):
                     elif is_panic(why_):
                         site = panic_site(why_)
                         if ANSWER_LAYER.search(site):
-                            if viol < 4:
-                                ctx.violation({"kind": "property", "what": "the solver panicked while building / matching an answer (panic location %s)" % site,
-                                               "solver": str(a[1]), "panic": str(why_[1])[:600], "case": sx.to_sexp(one)})
+                            pfam[fam] = pfam.get(fam, 0) + 1
+                            if viol < 4 or pfam[fam] == 1:
+                                ctx.violation({"kind": "property", "what": "the solver panicked while building / matching an answer (panic location %s): no well-formed answer is returned" % site,
+                                               "solver": str(a[1]), "family": fam, "panic": str(why_[1])[:600], "case": sx.to_sexp(one)})
                             viol += 1
                         else:
                             stats["solver_panics_other"] += 1
@@ -328,6 +349,7 @@ def run(ctx):
                           no_input=True)
     ctx.cov["property_violations"] = viol
     ctx.cov["wf_violations_by_family"] = vfam
+    ctx.cov["answer_layer_panics_by_family"] = pfam
     ctx.cov["rule"] = ("programs x goals: (a) own generator: structs with type / lifetime / const parameters, traits with type / lifetime / const parameters, 3-9 impls of a pool of 20; goals = 1-4 nested forall/exists blocks "
                        "binding types, lifetimes and consts, 1-3 atoms (Implemented / equality), optional hypothesis or inner quantifier; (b) vlib.proggen programs with existential goals; (c) the DESIGN section 5 witnesses. "
                        "Each goal is peeled+canonicalized by the real into_peeled_goal and solved by SLG solve, recursive solve and SLG solve_multiple (<= %d answers), each in a forked child with a %d s CPU limit. "
